@@ -469,6 +469,15 @@ def register_codecs(reg):
         st.assume(w.fun("is_utf8", ByteSeq, "bool")(f(y)))
         return ex.o.bytes_(f(y))
 
+    @reg.specfun("unb64")
+    def unb64(ex, st, args, cx):
+        """what base64.b64decode makes of a text (its UTF-8 bytes) or of bytes"""
+        w, V = ex.w, ex.w.V
+        g = w.fun("b64dec", ByteSeq, ByteSeq)
+        v = args[0].e
+        y = z3.If(V.is_str(v), w.fun("utf8", "str", ByteSeq)(V.s(v)), V.y(v))
+        return ex.o.bytes_(g(y))
+
     @reg.specfun("utf8_text")
     def utf8_text(ex, st, args, cx):
         w = ex.w
